@@ -359,7 +359,7 @@ impl Part for C16 {
             let r = match r1_setup_s(c.suite, &m, &k.pk_r, &info, &k.ikm_e) {
                 Some(x) => x,
                 None => {
-                    out.fail("R1 setup failed (reference bug)");
+                    out.fail_machinery("R1 setup failed (reference bug)");
                     return out;
                 }
             };
@@ -383,7 +383,7 @@ impl Part for C16 {
         let (enc, mut ref_s) = match found {
             Some(x) => x,
             None => {
-                out.fail("no value witness found in 6000 tries (machinery)");
+                out.fail_machinery("no value witness found in 6000 tries");
                 return out;
             }
         };
